@@ -268,6 +268,40 @@ func checkC19(c *Ctx) {
 			}
 		})
 	}
+	// optional scalar fields of the configuration messages (proto2 `optional uint32 weight` is a *uint32 that the file
+	// may leave unset): on the reload path they are read through the nil-safe getters or under a nil test, never by a
+	// bare *msg.Field
+	for _, f := range fs {
+		eachInstr(f, func(in ssa.Instruction) {
+			u, ok := in.(*ssa.UnOp)
+			if !ok || u.Op != token.MUL {
+				return
+			}
+			ld, ok := u.X.(*ssa.UnOp) // *(*(&msg.Field))
+			if !ok || ld.Op != token.MUL {
+				return
+			}
+			fa, ok := ld.X.(*ssa.FieldAddr)
+			if !ok {
+				return
+			}
+			pt, ok := fa.X.Type().Underlying().(*types.Pointer)
+			if !ok || !isProtoMsgPtr(fa.X.Type()) {
+				_ = pt
+				return
+			}
+			if _, isBasic := u.Type().Underlying().(*types.Basic); !isBasic {
+				return
+			}
+			pp := pathOf(ld)
+			if guardedM(f, in, func(cnd string, pol bool) bool { return !pol && strings.Contains(cnd, "nil") && strings.Contains(cnd, pp) }) {
+				return
+			}
+			nBad++
+			r.Bad("C19.1", fnName(f)+": optional field "+firstN(pp, 50)+" dereferenced without a nil test", in.Pos(), fnName(f),
+				"an optional field of a configuration message is read with a bare dereference on the reload path: a subnet file that leaves the key out (accepted before) makes the reload panic and takes the running station down", seen[f]...)
+		})
+	}
 	_ = nOpt
 	if nBad == 0 {
 		r.OK("C19.1", "reload path is free of panicking / exiting calls", token.NoPos, fmt.Sprintf("%d function(s) reachable from ParseConfig, OnReload, NewPhantomIPSelector, geoip.New", len(fs)))
